@@ -104,6 +104,18 @@ struct HLtiState : public LTIStateModel {
     std::size_t n_;
 };
 
+// x' = F_k x (+ u_k) + w, w ~ N(0, Q_k): a linear state model whose matrices may change between steps
+// (variable sampling time and the like); the library's LinearStateModel does the propagation.
+struct HTvState : public LinearStateModel {
+    HTvState(const MatrixXd& F, const MatrixXd& Q) : F_(F), Q_(Q) {}
+    bool setProperty(const std::string&) override { return false; }
+    MatrixXd getStateTransitionMatrix() override { return F_; }
+    MatrixXd getNoiseCovarianceMatrix() override { return Q_; }
+    MatrixXd getJacobian() override { return F_; }
+    VectorDescription getStateDescription() override { return VectorDescription(F_.rows()); }
+    MatrixXd F_, Q_;
+};
+
 struct HConstExo : public ExogenousModel {
     explicit HConstExo(const VectorXd& u) : u_(u) {}
     void propagate(const Ref<const MatrixXd>& cur, Ref<MatrixXd> prop) override { prop = MatrixXd::Zero(cur.rows(), cur.cols()).colwise() + u_; }
@@ -128,6 +140,7 @@ struct HLtiMeas : public LTIMeasurementModel {
     VectorDescription getInputDescription() const override { return VectorDescription(H_.cols(), 0, R_.rows()); }
     VectorDescription getMeasurementDescription() const override { return VectorDescription(H_.rows()); }
     void setNoise(const MatrixXd& R) { R_ = R; }
+    void setH(const MatrixXd& H) { H_ = H; }
     VectorXd y_; int fail_;
 };
 
@@ -425,22 +438,34 @@ static std::string ukfps(Toks& t) {
     VectorXd u = t.vec(n);
     long steps = t.nat();
     std::unique_ptr<UKFPrediction> up;
+    HTvState* usm0 = nullptr; HGenState* usm1 = nullptr; HConstExo* uexo = nullptr; HConstExo* kexo = nullptr;
     if (variant == 0) {
-        std::unique_ptr<HLtiState> sm(new HLtiState(F, Q));
-        if (exo) sm->add_exogenous_model(std::unique_ptr<ExogenousModel>(new HConstExo(u)));
+        usm0 = new HTvState(F, Q);
+        std::unique_ptr<HTvState> sm(usm0);
+        if (exo) { uexo = new HConstExo(u); sm->add_exogenous_model(std::unique_ptr<ExogenousModel>(uexo)); }
         up.reset(new UKFPrediction(std::unique_ptr<AdditiveStateModel>(std::move(sm)), a, b, kap));
     } else {
         MatrixXd A(n, n + nz); A << F, G;
-        std::unique_ptr<StateModel> sm(new HGenState(A, exo ? u : VectorXd::Zero(n).eval(), Q, VectorDescription(n, 0, nz), VectorDescription(n)));
-        up.reset(new UKFPrediction(std::move(sm), a, b, kap));
+        usm1 = new HGenState(A, exo ? u : VectorXd::Zero(n).eval(), Q, VectorDescription(n, 0, nz), VectorDescription(n));
+        up.reset(new UKFPrediction(std::unique_ptr<StateModel>(usm1), a, b, kap));
     }
-    std::unique_ptr<HLtiState> km(new HLtiState(F, Qeff));
-    if (exo) km->add_exogenous_model(std::unique_ptr<ExogenousModel>(new HConstExo(u)));
-    KFPrediction kp(std::move(km));
+    HTvState* ksm = new HTvState(F, Qeff);
+    std::unique_ptr<HTvState> km(ksm);
+    if (exo) { kexo = new HConstExo(u); km->add_exogenous_model(std::unique_ptr<ExogenousModel>(kexo)); }
+    KFPrediction kp{std::unique_ptr<LinearStateModel>(std::move(km))};
     sigma_point::UTWeight w(VectorDescription(n, 0, variant == 1 ? nz : 0), a, b, kap);
     Out o; o.s("ok");
     for (long s = 0; s < steps; ++s) {
         bool skip = t.flag(); long k = t.nat();
+        // optional new content of the model from this step on (same sizes): F, noise input G, Q, exogenous input
+        if (t.nat()) {
+            F = t.mat(n, n);
+            if (variant == 1) { G = t.mat(n, nz); Q = t.mat(nz, nz); Qeff = t.mat(n, n); } else { Q = t.mat(n, n); Qeff = Q; }
+            u = t.vec(n);
+            if (usm0) { usm0->F_ = F; usm0->Q_ = Q; if (uexo) uexo->u_ = u; }
+            else { MatrixXd A(n, n + nz); A << F, G; usm1->A_ = A; usm1->Q_ = Q; if (exo) usm1->b_ = u; }
+            ksm->F_ = F; ksm->Q_ = Qeff; if (kexo) kexo->u_ = u;
+        }
         GaussianMixture prev(k, n), predU(k, n), predK(k, n);
         prev.mean() = t.mat(n, k); prev.covariance() = t.mat(n, n * k);
         VectorXd outw = t.vec(k);
@@ -490,13 +515,16 @@ static std::string ukfcs(Toks& t) {
         // update_weights_online: "the noise size might depend on the number of measurements available")
         long chg = t.nat();
         if (chg) {
-            nz = t.nat();
-            D = t.mat(m, nz); R = t.mat(nz, nz); Reff = t.mat(m, m);
-            if (!um1) throw vh::BadArgs("chg");
-            MatrixXd A(m, n + nz); A << H, D;
-            um1->A_ = A; um1->R_ = R; um1->in_ = VectorDescription(n, 0, nz);
-            km->setNoise(Reff);
-            w = sigma_point::UTWeight(VectorDescription(n, 0, nz), a, b, kap);
+            // 1: new noise dimension (generic constructor with update_weights_online); 2: new content of the same sizes;
+            // both carry the complete new model: H | [nz D R Reff] or [R]
+            H = t.mat(m, n);
+            if (variant == 1) { nz = t.nat(); D = t.mat(m, nz); R = t.mat(nz, nz); Reff = t.mat(m, m); } else { R = t.mat(m, m); Reff = R; }
+            if (um1) {
+                MatrixXd A(m, n + nz); A << H, D;
+                um1->A_ = A; um1->R_ = R; um1->in_ = VectorDescription(n, 0, nz);
+            } else { um0->setH(H); um0->setNoise(R); }
+            km->setH(H); km->setNoise(Reff);
+            w = sigma_point::UTWeight(VectorDescription(n, 0, variant == 1 ? nz : 0), a, b, kap);
         }
         VectorXd y = t.vec(m);
         GaussianMixture pred(k, n), corrU(k, n), corrK(k, n);
